@@ -19,7 +19,10 @@ import (
 )
 
 // Bases of C13 (provided handlers only).
-var C13BaseNames = []string{"Default", "Cache", "Router", "Merge(Cache,Router)", "Merge(Router,Default,Cache)", "Merge(Merge(Cache,Router),Router)", "SQLite", "Merge(Cache,Router,SQLite)"}
+var C13BaseNames = []string{"Default", "Cache", "Router", "Merge(Cache,Router)", "Merge(Router,Default,Cache)", "Merge(Merge(Cache,Router),Router)", "SQLite", "Merge(Cache,Router,SQLite)", "SQLite whose bulk-insert goroutine has stopped (store context cancelled, 2-slot queue fills up)"}
+
+// C13BaseStoppedStore is the index of the SQLite base whose bulk-insert goroutine has stopped.
+const C13BaseStoppedStore = 8
 
 // Wrappers of C13: 0 none, 1 MaxSubscriptions, 2 Recv∘Send unique filters, 3 NIP-11 chain with all limits,
 // 4 Prometheus, 5 Prometheus∘MaxSubscriptions∘Logging, 6.. every provided middleware singly.
@@ -46,7 +49,11 @@ func (env *c13Env) newRouter() *mocrelay.RouterHandler {
 	return r
 }
 
-func (env *c13Env) newSQLite(h *vsched.H) mocrelay.Handler {
+func (env *c13Env) newSQLite(h *vsched.H) mocrelay.Handler { return env.newSQLiteOpt(h, false) }
+
+// newSQLiteOpt: stopped = the store's own context is cancelled right away (the relay is shutting its
+// store down while sessions are still being served): nobody takes events out of the queue any more.
+func (env *c13Env) newSQLiteOpt(h *vsched.H, stopped bool) mocrelay.Handler {
 	db, err := sql.Open("sqlite3", ":memory:")
 	if err != nil {
 		panic(err)
@@ -59,6 +66,9 @@ func (env *c13Env) newSQLite(h *vsched.H) mocrelay.Handler {
 	sh, err := mocsqlite.NewSQLiteHandler(env.dbCtx, db, &mocsqlite.SQLiteHandlerOption{EventBulkInsertNum: 1, EventBulkInsertDur: 0, MaxLimit: mocsqlite.NoLimit})
 	if err != nil {
 		panic(err)
+	}
+	if stopped {
+		env.dbStop()
 	}
 	return sh
 }
@@ -81,6 +91,8 @@ func (env *c13Env) base(h *vsched.H, i int) mocrelay.Handler {
 		return env.newSQLite(h)
 	case 7:
 		return mocrelay.NewMergeHandler(mocrelay.NewCacheHandler(10), env.newRouter(), env.newSQLite(h))
+	case 8:
+		return env.newSQLiteOpt(h, true)
 	}
 	panic("bad base")
 }
